@@ -209,6 +209,38 @@ int main(int argc, char **argv)
 		}
 	}
 
+	/* Wire values: the documented alphabets are lists ("a-z0-5", "a-zA-Z0-9\\274-\\375"); the i-th character stands for the
+	   value i.  A permuted table is still lossless inside one tree but no longer talks to any other build.  Asserted in full
+	   for Base32 and Base128; for Base64/Base64u the document and the code disagree on where '-' and the digits go, so only
+	   the undisputed part (a-z = 0..25, A-Z = 26..51) is asserted. */
+	if (shard == 0) {
+		for (ci = 0; ci < 4; ci++) {
+			const struct cdc *c = &C[ci];
+			int v, nvals = 1 << c->bits, upto = (ci == 1 || ci == 2) ? 52 : nvals;
+			for (v = 0; v < upto; v++) {
+				unsigned char in1[1];
+				char out1[8];
+				size_t cap = sizeof(out1) - 1;
+				int want;
+				if (ci == 0) want = v < 26 ? 'a' + v : '0' + (v - 26);
+				else if (ci == 3) want = v < 26 ? 'a' + v : v < 52 ? 'A' + (v - 26) : v < 62 ? '0' + (v - 52) : 0xBC + (v - 62);
+				else want = v < 26 ? 'a' + v : 'A' + (v - 26);
+				in1[0] = (unsigned char)(v << (8 - c->bits));
+				memset(out1, 0, sizeof(out1));
+				c->ops->encode(out1, &cap, in1, 1);
+				evals++;
+				if ((unsigned char)out1[0] != (unsigned char)want) {
+					char key[64], detail[96];
+					snprintf(key, sizeof(key), "C07:%s:wire-value", c->name);
+					snprintf(detail, sizeof(detail), "value %d is written as 0x%02x, the documented alphabet has 0x%02x there", v, (unsigned char)out1[0], (unsigned char)want);
+					fail(c, "wire-value", in1, 1, cap, detail);
+					break;
+				}
+			}
+		}
+		DRV_N("wire values of every codec match the documented alphabet order");
+	}
+
 	if (!strcmp(mode, "small")) {
 		for (ci = 0; ci < 4; ci++) {
 			int a, b;
